@@ -110,6 +110,11 @@ pub enum Src {
     Hist { from: u8, idx: u16 },
     /// seeded random bytes
     Garbage { len: u32, seed: u32 },
+    /// a transport message forged by a non-conforming peer that holds the session keys: an
+    /// authentic AEAD ciphertext (under the receiver's current key; nonce = the receiver's counter,
+    /// or 0 for a stateless receiver) of a payload of `plen` bytes - possibly larger than any
+    /// conforming writer may produce
+    Forged { plen: u32, pseed: u32 },
 }
 
 #[derive(Clone, Copy, Debug, Serialize, Deserialize, PartialEq)]
